@@ -35,7 +35,8 @@ def py_literal(t, limbs):
 def cells(tier):
     out = []
     st = {"states": 0, "transitions": 0}
-    for mode in ("bin", "un", "cast", "tree"):
+    # chain: casts chained three deep, ((a as T1) as T2) as T3 (dimension audit)
+    for mode in ("bin", "un", "cast", "tree", "chain"):
         cfg = "MC_MachineOps_%s%s.cfg" % (mode, "_thorough" if tier == "thorough" else "")
         if mode == "tree" and tier == "quick":
             cfg = "MC_MachineOps_tree_small.cfg"
@@ -57,10 +58,14 @@ def expr_src(c, a, b, cc):
         return "%s%s" % (c["op"], a if not a.startswith("(") and not a[0] == "-" else a)
     if c["mode"] == "cast":
         return "%s as %s" % (a, c["op"])
+    if c["mode"] == "chain":
+        return "((%s as %s) as %s) as %s" % (a, c["op"], c["op2"], c["t3"])
     return "(%s %s %s) %s %s" % (a, c["op"], b, c["op2"], cc)
 
 
 def cell_key(c):
+    if c["mode"] == "chain":
+        return "chain %s as %s as %s as %s a=%s" % (c["t"], c["op"], c["op2"], c["t3"], mc.limbs_to_int(c["a"], c["t"]))
     return "%s %s %s%s a=%s b=%s c=%s" % (c["mode"], c["t"], c["op"], " " + c["op2"] if c.get("op2") else "",
                                           mc.limbs_to_int(c["a"], c["t"]),
                                           mc.limbs_to_int(c["b"], c["t"]) if c["b"] else "",
@@ -84,6 +89,11 @@ def const_programs(live):
                 consts.append("const Y%d: %s = X%d %s QC%d;" % (k, rt, k, c["op2"], k))
                 consts.append("const X%d: %s = QA%d %s QB%d;" % (k, rt, k, c["op"], k))
                 consts.append("const QC%d: %s = %s;" % (k, t, lc))
+            elif c["mode"] == "chain":
+                # one cast per constant, each declared before the one it uses
+                consts.append("const Y%d: %s = X%d as %s;" % (k, rt, k, c["t3"]))
+                consts.append("const X%d: %s = XX%d as %s;" % (k, c["op2"], k, c["op2"]))
+                consts.append("const XX%d: %s = QA%d as %s;" % (k, c["op"], k, c["op"]))
             else:
                 consts.append("const Y%d: %s = %s;" % (k, rt, expr_src(c, "QA%d" % k, "QB%d" % k, "")))
             consts.append("const QA%d: %s = %s;" % (k, t, la))
@@ -166,7 +176,11 @@ def len_program(cases):
 
 
 SIZE_LABELS = ["sizeof", "sizeof-array-of-3", "const-sizeof-word-plus-sizeof", "const-sizeof-plus-sizeof-word", "sizeof-word", "sizeof-array-of-3-words", "sizeof-underfilled-word", "sizeof-array-of-3-underfilled-words"]
-PRELUDE_TYPES = "struct P8\n{\na: u8,\nx: i32,\n}\nword16 W2\n{\na: u8,\nb: u8,\n}\n"
+PRELUDE_TYPES = ("struct P8\n{\na: u8,\nx: i32,\n}\nword16 W2\n{\na: u8,\nb: u8,\n}\n"
+                 # dimension audit: words of every declared size, a structure nested three deep (MC_Layout.Extra)
+                 "word8 WA\n{\na: u8,\n}\nword32 WB\n{\na: u16,\nb: u8,\nc: u8,\n}\nword64 WC\n{\na: i32,\nb: i32,\n}\n"
+                 "word128 WE\n{\na: i64,\nb: i64,\n}\nstruct Q3\n{\na: u8,\np: P8,\nb: u8,\n}\n")
+WORD_MEMBERS = ("i8", "i16", "i32", "i64", "i128", "u8", "bool", "W2", "WA", "WB", "WC", "WE")
 
 
 def size_programs(cases):
@@ -194,7 +208,7 @@ def size_programs(cases):
             # its members (the typer only demands that they fit into the declared width), so `|:W|` is the same
             # layout size as for the structure, for an exactly declared word and for an under-filled one alike;
             # and `|:[3]W|` = 3 * `|:W|`.
-            if c["size"] in (1, 2, 4, 8, 16) and c["ms"] and all(t in ("i8", "i16", "i32", "i64", "i128", "u8", "bool", "W2") for t in c["ms"]):
+            if c["size"] in (1, 2, 4, 8, 16) and c["ms"] and all(t in WORD_MEMBERS for t in c["ms"]):
                 decls.append("word%d V%d\n{\n%s}" % (8 * c["size"], k, members))
                 body.append('print!(|:V%d|, "\\n");' % k)
                 body.append('print!(|:[3]V%d|, "\\n");' % k)
@@ -342,6 +356,25 @@ def run(rep, tier, seed, selftest):
     n4 = compare(rep, "huge", hprogs, hres, hexp, hkeys, HUGE_LABELS)
     log("[replay] lengths: %d cases, %d comparisons; sizes: %d structures, %d comparisons; huge types: %d, %d comparisons" %
         (len(lens), n2, len(sizes), n3, len(huges), n4))
+    # f. mixed constant expressions (dimension audit): `|:T|` of every type form, casts and other constants three deep;
+    # constants of word / array-of-structure type whose members are constant expressions; array lengths that are chains of
+    # constant expressions in every position a length can stand (MC_MachineConst; packed by checks/machine_fam.py, the
+    # constants written in dependency order, in reverse order, and in reverse order after the functions)
+    from . import machine_fam as mf
+    rc = common.tlc("MC_MachineConst", "MC_MachineConst_%s.cfg" % tier, workers=4, timeout=1200, heap="4g", tag="C10-cmix-%d" % os.getpid())
+    if not rc.ok:
+        raise common.ToolError("MC_MachineConst: invariant %s violated (a cell has undefined behaviour, or a constant differs from "
+                               "the same expression evaluated at run time IN THE SPECIFICATION)" % rc.violated)
+    mixed = sorted(rc.cases, key=lambda c: json.dumps(c["par"], sort_keys=True))
+    random.Random(seed).shuffle(mixed)         # cells of different families share a source file
+    if len(mixed) < 100:
+        raise common.ToolError("MC_MachineConst emitted %d cells (vacuous)" % len(mixed))
+    n5, mpacks = mf.check_packed_cells(rep, "cmix", "cmix", mixed, 1, seed, "C10-cmix")
+    fams = {}
+    for c in mixed:
+        fams[c["par"]["fam"]] = fams.get(c["par"]["fam"], 0) + 1
+    log("[tlc] MC_MachineConst: %d states, %d cells (%s), %.1fs; [replay] %d programs, %d comparisons" %
+        (rc.distinct, len(mixed), ", ".join("%s %d" % kv for kv in sorted(fams.items())), rc.wall, mpacks, n5))
     selftests = {}
     if selftest or tier == "thorough":
         probe = common.Report("C10", tier, seed)
@@ -355,26 +388,39 @@ def run(rep, tier, seed, selftest):
         for f in probe.violations:
             if os.path.exists(f):
                 os.remove(f)
+        probe3 = common.Report("C10", tier, seed)
+        probe3.known = []
+        with contextlib.redirect_stdout(io.StringIO()):
+            badc = json.loads(json.dumps(mixed[:3]))
+            badc[1]["out"][0]["v"][0] = (badc[1]["out"][0]["v"][0] + 1) % 256
+            mf.check_packed_cells(probe3, "cmix", "cmix", badc, 1, seed, "C10-selftest-cmix")
+        selftests["corrupted_mixed_constant_detected"] = len(probe3.violations) == 1
+        for f in probe3.violations:
+            if os.path.exists(f):
+                os.remove(f)
         log("[selftest] %s" % json.dumps(selftests))
         if not all(selftests.values()):
             raise common.ToolError("self-test failed: %s" % selftests)
     rs = random.Random(seed)
     coverage = {
-        "states": st["states"] + r.distinct,
-        "transitions": st["transitions"] + r.generated,
-        "traces_validated_against_impl": len(live) + len(lens) + len(sizes) + len(huges),
+        "states": st["states"] + r.distinct + rc.distinct,
+        "transitions": st["transitions"] + r.generated + rc.generated,
+        "traces_validated_against_impl": len(live) + len(lens) + len(sizes) + len(huges) + len(mixed),
         "samples": [{"cell": c} for c in rs.sample(live, 3)] + [{"length": c} for c in rs.sample(lens, 2)] +
                    [{"structure": c} for c in rs.sample(sizes, 2)] + [{"program_head": programs[0]["src"][:800]}],
-        "evaluations": len(allcells) + len(lens) + len(sizes),
-        "distinct_nontrivial": len(live) + len(lens) + len(sizes),
+        "evaluations": len(allcells) + len(lens) + len(sizes) + len(mixed),
+        "distinct_nontrivial": len(live) + len(lens) + len(sizes) + len(mixed),
         "rule": "TLC evaluates every cell of the operator matrix and of the depth-2 tree matrix with Machine.tla, every "
                 "(length 0..8 x passing mode x element type) with Layout.tla's LenOf and every structure up to the member bound "
                 "with SizeOf; each cell is compiled as a constant with literal operands, as a chain of named constants declared "
                 "in reverse dependency order, and evaluated at run time from variables; all printed values must equal the "
-                "specification's. Non-trivial = cells with defined behaviour + all length and size cases.",
+                "specification's. MC_MachineConst: cells mixing size-of of every type form, casts and other constants three deep, "
+                "aggregate constants with constant-expression members, lengths that are chains of constant expressions in every "
+                "position (each run by the machine, invariant constant = same expression at run time; packed with the constants "
+                "written in three different orders). Non-trivial = cells with defined behaviour + all length, size and mixed cases.",
         "exhaustive": True,
-        "const_cells": len(allcells), "const_cells_defined": len(live), "length_cases": len(lens), "structures": len(sizes), "huge_types": len(huges),
-        "comparisons": n1 + n2 + n3 + n4, "selftests": selftests,
+        "const_cells": len(allcells), "const_cells_defined": len(live), "length_cases": len(lens), "structures": len(sizes), "huge_types": len(huges), "mixed_constant_cells": fams,
+        "comparisons": n1 + n2 + n3 + n4 + n5, "selftests": selftests,
     }
     return rep.finish("model_checking", coverage, [
         "decimal text <-> limbs conversion in Python is trusted",
